@@ -157,6 +157,21 @@ func keySources(v ssa.Value, fn *ssa.Function, seen map[ssa.Value]bool, out map[
 		keySources(x.X, fn, seen, out)
 	case *ssa.MakeInterface:
 		keySources(x.X, fn, seen, out)
+	case *ssa.Slice:
+		// variadic argument array: the values stored into its elements
+		if a, ok := x.X.(*ssa.Alloc); ok {
+			for _, r := range core.Referrers(a) {
+				if ia, ok := r.(*ssa.IndexAddr); ok {
+					for _, r2 := range core.Referrers(ia) {
+						if st, ok := r2.(*ssa.Store); ok && st.Addr == ssa.Value(ia) {
+							keySources(st.Val, fn, seen, out)
+						}
+					}
+				}
+			}
+		} else {
+			keySources(x.X, fn, seen, out)
+		}
 	case *ssa.UnOp:
 		if x.Op != token.MUL {
 			keySources(x.X, fn, seen, out)
